@@ -93,6 +93,11 @@ fn pairs() -> Vec<Pair> {
         roa("c", &["172.16.0.0/16 => 65015"], &[]), Op::Quiesce,
     ];
     vec![
+        // the daily snapshot job (snapshots of every aggregate and of the
+        // publication server's content log, followed by the removal of the
+        // command / change-set files they cover) is the operation
+        Pair { refused: false, name: "update_snapshots/steady", setup: vec![],
+            op: Op::UpdateSnapshots },
         Pair { refused: false, name: "roa_delta/steady", setup: vec![],
             op: roa("c", &["10.0.1.0/24 => 65002"], &["10.0.0.0/24-24 => 65000"]) },
         Pair { refused: true, name: "roa_delta_refused/steady", setup: vec![],
@@ -345,8 +350,27 @@ fn loads_and_keeps(
             }
         }
     }
-    if let Err(e) = w.krill.repo_manager().repo_stats() {
-        issues.push(("entity-does-not-load".into(), format!("repo stats: {e}")));
+    match w.krill.repo_manager().repo_stats() {
+        Err(e) => issues.push(("entity-does-not-load".into(),
+                               format!("repo stats: {e}"))),
+        Ok(stats) => {
+            // the publication server's own state is never behind what it
+            // has already served: an acknowledged (and served) publication
+            // must not be lost to a restart
+            if let Ok(disk) = kvh::rrdpview::read_rrdp(&w.repo_dir()) {
+                if disk.session == stats.session.to_string()
+                    && stats.serial < disk.serial
+                {
+                    issues.push((
+                        "publication-state-behind-served-rrdp".into(),
+                        format!("the notification file on disk is at serial \
+                                 {} of session {}, the publication server \
+                                 loads at serial {}", disk.serial,
+                                disk.session, stats.serial),
+                    ));
+                }
+            }
+        }
     }
     issues
 }
